@@ -26,7 +26,7 @@ CONSTANTS MaxSeg,     \* segments per file
           Emit        \* print finished behaviours as replay cases
 
 Kinds == {"zlib", "gzip", "zip", "idat"}
-FakeWhy == [zlib |-> {"block"}, gzip |-> {"method", "fextra-past-eof", "block"},
+FakeWhy == [zlib |-> {"block"}, gzip |-> {"method", "fextra-past-eof", "name-past-eof", "comment-past-eof", "block"},
             zip |-> {"signature", "method", "extra-past-eof", "block"},
             idat |-> {"crc", "short", "nolength", "truncated"}]
 
